@@ -52,6 +52,11 @@ def prefixPF (offset : Nat) : List Nat → PF
   | [] => []
   | v :: vs => (offset, v) :: prefixPF (offset + 1) vs
 
+/-- canonical form used by the driver to compare id answers as sets-with-multiplicity -/
+def sortN (l : List Nat) : List Nat := l.mergeSort (fun a b => decide (a ≤ b))
+/-- the clause "the answer is exactly the specification's id set, no id twice" as evaluated on the implementation's output -/
+def sameIds (impl spec : List Nat) : Bool := sortN impl == sortN spec
+
 /-! ### Trie -/
 
 structure T where
